@@ -4,6 +4,8 @@ package c01
 
 import (
 	"crypto/tls"
+	"errors"
+	"io"
 	"encoding/json"
 	"fmt"
 	"math/rand"
@@ -43,12 +45,14 @@ func init() {
 				return []fw.ChildSpec{
 					{Name: "plain", Mode: "plain", Shards: 12, Timeout: 40 * time.Minute, Env: []string{"VERIF_POISON=1"}},
 					{Name: "tls", Mode: "tls", Shards: 3, Timeout: 40 * time.Minute, Env: []string{"VERIF_POISON=1"}},
+					{Name: "realtcp", Mode: "realtcp", Shards: 4, Timeout: 40 * time.Minute, Env: []string{"VERIF_POISON=1"}},
 					{Name: "plain-race", Mode: "plain-race", Race: true, Shards: 4, Timeout: 40 * time.Minute},
 				}
 			}
 			return []fw.ChildSpec{
 				{Name: "plain", Mode: "plain", Shards: 10, Timeout: 8 * time.Minute, Env: []string{"VERIF_POISON=1"}},
 				{Name: "tls", Mode: "tls", Shards: 2, Timeout: 8 * time.Minute, Env: []string{"VERIF_POISON=1"}},
+				{Name: "realtcp", Mode: "realtcp", Shards: 2, Timeout: 8 * time.Minute, Env: []string{"VERIF_POISON=1"}},
 			}
 		},
 		Run:    run,
@@ -504,6 +508,8 @@ func run(c *fw.Ctx) {
 	switch c.Mode {
 	case "tls":
 		runTLS(c, canary)
+	case "realtcp":
+		runRealTCP(c, canary)
 	default:
 		runPlain(c, canary)
 	}
@@ -543,15 +549,29 @@ func runPlain(c *fw.Ctx, canary *oracle.Canary) {
 var caseSeq int
 
 // runCase plays one scripted client against a started app and checks what every consumer read.
+// clientConn is what runCase needs from the client side of a connection (scripted End or real *net.TCPConn).
+type clientConn interface {
+	net.Conn
+	CloseWrite() error
+}
+
 func runCase(c *fw.Ctx, canary *oracle.Canary, cs *Case, dial func(id string) *vnet.End, tlsCfg *tls.Config) {
+	runCaseOn(c, canary, cs, func(id string) (clientConn, string) { return dial(id), id }, tlsCfg)
+}
+
+// runCaseOn: dial returns the client connection and the recorder id under which the harness modules will find it.
+func runCaseOn(c *fw.Ctx, canary *oracle.Canary, cs *Case, dial func(id string) (clientConn, string), tlsCfg *tls.Config) {
 	cfg := cs.Cfg
 	caseSeq++
-	id := fmt.Sprintf("c01-%d-%d-%d", c.Shard, cfg.Index, caseSeq)
 	S := oracle.Stream(streamDomain, cfg.StreamID, cfg.StreamLen)
-	rec := hmods.Track(id)
-	defer hmods.Untrack(id)
 	canary.Reset()
-	client := dial(id)
+	client, id := dial(fmt.Sprintf("c01-%d-%d-%d", c.Shard, cfg.Index, caseSeq))
+	if client == nil {
+		c.Inconclusive("dial failed")
+		return
+	}
+	rec := hmods.Track(id)
+	defer rec.Release()
 	_ = client.SetReadDeadline(time.Now().Add(25 * time.Second))
 
 	r := rand.New(rand.NewSource(cs.SegSeed))
@@ -589,7 +609,17 @@ func runCase(c *fw.Ctx, canary *oracle.Canary, cs *Case, dial func(id string) *v
 		}()
 		received = drive.ReadAll(client)
 	}
-	closed := client.WaitPeerClosed(25 * time.Second)
+	closed := true
+	if e, ok := client.(*vnet.End); ok {
+		closed = e.WaitPeerClosed(25 * time.Second)
+	} else {
+		// real socket: the server closing is observed as EOF; one more read tells EOF from the watchdog
+		_ = client.SetReadDeadline(time.Now().Add(2 * time.Second))
+		var one [1]byte
+		if _, err := client.Read(one[:]); err == nil || !errors.Is(err, io.EOF) {
+			closed = false
+		}
+	}
 	for _, e := range cfg.Expects {
 		if strings.HasPrefix(e.Name, "branch") {
 			rec.WaitDone(e.Name, 5*time.Second)
@@ -769,4 +799,40 @@ func replay(c *fw.Ctx, raw json.RawMessage) {
 	}
 	defer app.Stop()
 	runCase(c, canary, cs, func(id string) *vnet.End { cl, _ := app.Dial(id); return cl }, nil)
+}
+
+// runRealTCP runs the plain and PROXY-prologue configurations over real loopback TCP sockets (kernel coalescing makes
+// the segmentation best effort; TCP_NODELAY and short pauses between writes keep most boundaries).
+func runRealTCP(c *fw.Ctx, canary *oracle.Canary) {
+	nCfg := c.Pick(160, 4000)
+	prologues := []string{"", "", "proxy1", "proxy2"}
+	for i := 0; i < nCfg; i++ {
+		if !c.Mine(i) {
+			continue
+		}
+		cfg := genConfig(c.Seed, 1000000+i, prologues[i%len(prologues)])
+		name := vnet.UniqueName("c01real")
+		appCfg := fmt.Sprintf(`{"servers":{"s":{"listen":["veriftcp/%s:1"],"routes":%s,"matching_timeout":"30s"}}}`, name, cfg.Routes)
+		app, err := drive.StartAppConfig(appCfg, "")
+		if err != nil {
+			c.Violation("C01 config rejected", fmt.Sprintf("generated configuration failed to load: %v", err), cfg)
+			continue
+		}
+		addr, _ := vnet.RealTCPAddr(name)
+		r := fw.Rand(c.Seed, "c01realseg", i)
+		for k := 0; k < 3; k++ {
+			cs := &Case{Cfg: cfg, SegClass: []string{"single", "random", "edges", "chunk2048", "headtrickle"}[(i+k)%5], SegSeed: r.Int63(), PauseEvery: 1}
+			runCaseOn(c, canary, cs, func(string) (clientConn, string) {
+				raw, err := net.Dial("tcp", addr)
+				if err != nil {
+					return nil, ""
+				}
+				tc := raw.(*net.TCPConn)
+				_ = tc.SetNoDelay(true)
+				return tc, hmods.RealConnID(tc.LocalAddr().String(), tc.RemoteAddr().String())
+			}, nil)
+			c.Obs("cases_real_tcp", 1)
+		}
+		app.Stop()
+	}
 }
